@@ -4,7 +4,7 @@ set -e
 here=$(cd "$(dirname "$0")" && pwd)
 tmp=$(mktemp -d)
 trap 'rm -rf "$tmp"' EXIT
-cp -r "$here"/hist "$here"/lin "$here"/float "$here"/text "$here"/base "$here"/reg "$here"/tracevalid "$tmp"/
+cp -r "$here"/hist "$here"/lin "$here"/float "$here"/text "$here"/base "$here"/reg "$here"/tracevalid "$here"/histseq "$tmp"/
 (cd "$tmp/hist" && for f in Hist HistLemmas HistInv HistProof; do timeout 600 coqc -Q . "" $f.v; done) | tail -2
 (cd "$tmp/lin" && timeout 600 coqc Cas.v) | tail -1
 (cd "$tmp/float" && timeout 600 coqc F1_trans.v >/dev/null && timeout 600 coqc F3_negzero.v >/dev/null && timeout 600 coqc bits.v >/dev/null && echo float ok)
@@ -12,5 +12,6 @@ cp -r "$here"/hist "$here"/lin "$here"/float "$here"/text "$here"/base "$here"/r
 (cd "$tmp/base" && timeout 600 coqc Utf8.v) | tail -1
 (cd "$tmp/reg" && timeout 600 coqc Reg.v && echo reg ok)
 (cd "$tmp/tracevalid" && timeout 600 coqc HExec.v && echo tracevalid model ok)
+(cd "$tmp/histseq" && timeout 600 coqc -Q . "" F3.v >/dev/null && timeout 600 coqc -Q . "" HistSeq.v >/dev/null && echo histseq ok)
 ! grep -rn 'Admitted\|admit\.\|Axiom \|Parameter \|Conjecture ' "$here" --include=*.v
 echo "all prototypes re-checked"
